@@ -166,9 +166,8 @@ def build_pdf(seed: int, feature: str | None = None, twin: bool = False):
                     exp.seq.remove(t)
                     exp.unit_of.pop(t)
             lines = [exp.text(tk.new("b"), p)] if twin else []
-        elif feature is None and not placed_clean and rng.random() < 0.4:
-            placed_clean = True      # clean PDFs carry images on one page only (per-page numbering restart is a listed finding)
-            imgs = [img() for _ in range(rng.randint(1, 3))]
+        elif feature is None and rng.random() < 0.4:
+            imgs = [img() for _ in range(rng.randint(1, 3))]     # pictures on any pages, picture-free pages in between (numbers run through the document)
         pages.append({"lines": lines, "images": imgs})
     exp.n_units = n_pages
     meta = {"Title": exp.ignore(tk.new("t")), "Author": exp.ignore(tk.new("t"))}
